@@ -64,6 +64,11 @@
 //! were made through — and every call in flight must be unaffected: the in-flight table is shared by the clones, a
 //! handle's copy of the wrapped service is not. Ignored on an arrival that only hands out a parked future (`ondrop`).
 //!
+//! Case header `khash=<m>`: the key type's `Hash` feeds only `key mod m` to the hasher (`m=1`: all keys collide; absent /
+//! 0: the whole key), its `Eq` compares the key — distinct keys with equal hashes are DISTINCT keys and must not share a
+//! call, a result or a table entry (`CKey` below). Not a notion of the model. `manual herd … hmod=<m>`: the same for the
+//! key type of the real-thread instance (`GKey`; the rendezvous of `gate=hash` sits in that same `Hash`).
+//!
 //! `arrive … eclone=1`: the caller clones what it received (`Result<Resp, CoalesceError<IErr>>` — `CoalesceError::clone`,
 //! what an outer layer that shares results, e.g. a second coalescing layer, does with it) and looks at the clone only.
 use crate::world::*;
@@ -78,9 +83,35 @@ use std::task::{Context, Poll, Waker};
 use tower::{Layer, Service};
 use tower_resilience_coalesce::{CoalesceConfig, CoalesceError, CoalesceLayer, CoalesceService};
 
-type KeyFn = fn(&Req) -> u64;
-fn key_of(r: &Req) -> u64 {
-    r.key
+/// The key type of the case proper: the request's key number, with a `Hash` that may be deliberately COARSER than
+/// its `Eq` (case header `khash=<m>`: only `key mod m` is hashed — `m=1`: every key has the same hash; `0`/absent:
+/// the whole key is hashed). Legal under the `Hash`/`Eq` contract (equal keys hash equally) and common with
+/// hand-written `Hash` impls (hash the path, compare tenant and path). Coalescing is PER KEY, i.e. per `Eq` class:
+/// keys that merely collide in their hash are different keys (the model has no notion of a hash at all).
+#[derive(Clone, Debug)]
+pub struct CKey {
+    key: u64,
+    /// what `Hash` feeds to the hasher: a function of `key` fixed for the case
+    hc: u64,
+}
+impl PartialEq for CKey {
+    fn eq(&self, o: &CKey) -> bool {
+        self.key == o.key
+    }
+}
+impl Eq for CKey {}
+impl Hash for CKey {
+    fn hash<H: Hasher>(&self, h: &mut H) {
+        h.write_u64(self.hc);
+    }
+}
+/// `khash=<m>` of the case being run (the key extractor is a plain `fn`; requests are also made from destructors and
+/// from a second thread, `manual ondrop … thread=1`, hence a process-wide atomic)
+static KEY_HASH_MOD: AtomicU64 = AtomicU64::new(0);
+type KeyFn = fn(&Req) -> CKey;
+fn key_of(r: &Req) -> CKey {
+    let m = KEY_HASH_MOD.load(Ordering::SeqCst);
+    CKey { key: r.key, hc: if m == 0 { r.key } else { r.key % m } }
 }
 
 /// The scripted inner service, except that `call()` itself panics for a request marked
@@ -151,7 +182,7 @@ impl Service<Req> for CallPanic {
     }
 }
 
-type Svc = CoalesceService<CallPanic, u64, Req, KeyFn>;
+type Svc = CoalesceService<CallPanic, CKey, Req, KeyFn>;
 type SvcFut = <Svc as Service<Req>>::Future;
 
 /// What the inner futures' destructors need: the owner's handle, the armed hooks, the parked futures.
@@ -321,7 +352,7 @@ fn request_on(svc: &mut Svc, ix: usize, c: usize, req: Req, ready: Option<&Rdy>)
     Some((fut, led))
 }
 
-type LayerT = CoalesceLayer<u64, Req, KeyFn>;
+type LayerT = CoalesceLayer<CKey, Req, KeyFn>;
 
 pub struct Adapter {
     shared: Arc<Mutex<Shared>>,
@@ -338,7 +369,7 @@ fn make_layer(ctor: &str) -> Option<LayerT> {
     match ctor {
         "new" => Some(CoalesceLayer::new(key_of as KeyFn)),
         "config" => {
-            let cfg: CoalesceConfig<u64, KeyFn> = CoalesceConfig::builder(key_of as KeyFn).name("verif").build();
+            let cfg: CoalesceConfig<CKey, KeyFn> = CoalesceConfig::builder(key_of as KeyFn).name("verif").build();
             Some(CoalesceLayer::with_config(cfg.clone()))
         }
         "confignew" => Some(CoalesceLayer::with_config(CoalesceConfig::new(key_of as KeyFn))),
@@ -349,6 +380,7 @@ fn make_layer(ctor: &str) -> Option<LayerT> {
 
 impl Adapter {
     pub fn new(kv: &Kv) -> Adapter {
+        KEY_HASH_MOD.store(kv.u64("khash", 0), Ordering::SeqCst);
         let shared = Arc::new(Mutex::new(Shared { svcs: BTreeMap::new(), gone: false, hooks: BTreeMap::new(), parked: BTreeMap::new(), known: BTreeSet::new() }));
         let mut a = Adapter { shared, layer: make_layer(kv.str("ctor", "builder").as_str()), layer_clones: Vec::new(), backend: Some(Inner::new()) };
         a.build(0);
@@ -621,18 +653,20 @@ impl Gate {
 /// `Hash` (called by the map during the look-up, provided the map is not empty) pass through the gate
 struct GKey {
     k: u64,
+    /// `hmod=<m>`: `Hash` feeds only `k mod m` to the hasher (0: all of `k`); `Eq` compares `k`
+    hm: u64,
     gate: Arc<Gate>,
 }
 impl Clone for GKey {
     fn clone(&self) -> GKey {
         self.gate.pass(GateAt::Clone);
-        GKey { k: self.k, gate: self.gate.clone() }
+        GKey { k: self.k, hm: self.hm, gate: self.gate.clone() }
     }
 }
 impl Hash for GKey {
     fn hash<H: Hasher>(&self, h: &mut H) {
         self.gate.pass(GateAt::Hash);
-        self.k.hash(h)
+        (if self.hm == 0 { self.k } else { self.k % self.hm }).hash(h)
     }
 }
 impl PartialEq for GKey {
@@ -732,7 +766,7 @@ impl std::fmt::Display for Got {
             Got::Cancelled => write!(f, "err:leader_cancelled"),
             Got::Recv => write!(f, "err:recv_error"),
             Got::NotReady => write!(f, "notready"),
-            Got::Stuck => write!(f, "<still pending 20 s after the inner call was released>"),
+            Got::Stuck => write!(f, "<still pending long after the inner calls of the round were released (20 s; 0.3 s in a round in which some key had no inner call)>"),
         }
     }
 }
@@ -743,6 +777,10 @@ struct Lanes {
     returned: AtomicUsize,
     finished: AtomicUsize,
     got: Mutex<Vec<Option<Got>>>,
+    /// how long (real ns) a thread goes on polling its future after the release of the round: `HERD_DEADLINE_NS`, or a
+    /// short time when the coordinator has seen that some key of the round has NO inner call (already a violation;
+    /// requests that joined a call of another key — e.g. the never-finishing ballast — would wait the whole bound)
+    patience: AtomicU64,
 }
 
 /// wait for `cond`: spin briefly (the normal case: the other threads are running, the wait is shorter than a
@@ -803,6 +841,8 @@ impl Drop for HerdLock {
 }
 
 const HERD_DEADLINE_NS: u64 = 20_000_000_000;
+/// … when some key of the round has no inner call at all (see `Lanes::patience`)
+const HERD_ORPHAN_NS: u64 = 300_000_000;
 const BALLAST_KEY: u64 = u64::MAX;
 
 fn herd_thread<Sv>(svc: Sv, tid: usize, keys: usize, out: u8, lanes: Arc<Lanes>, sh: Arc<HerdShared>)
@@ -853,7 +893,7 @@ where
                         }
                         Poll::Pending => false,
                     },
-                    HERD_DEADLINE_NS,
+                    lanes.patience.load(Ordering::SeqCst),
                 );
                 match (ok, res) {
                     (true, Some(Ok(x))) => Got::Ok(x.0),
@@ -929,18 +969,21 @@ fn herd(kv: &Kv) {
         returned: AtomicUsize::new(0),
         finished: AtomicUsize::new(0),
         got: Mutex::new(vec![None; threads]),
+        patience: AtomicU64::new(HERD_DEADLINE_NS),
     });
     let g = gate.clone();
-    let layer = CoalesceLayer::builder(move |r: &HReq| GKey { k: r.key, gate: g.clone() }).name("herd").build();
+    let hm = kv.u64("hmod", 0);
+    let layer = CoalesceLayer::builder(move |r: &HReq| GKey { k: r.key, hm, gate: g.clone() }).name("herd").build();
     let svc = layer.layer(HerdInner(sh.clone()));
     let cfg = format!(
-        "threads={} rounds={} keys={} gate={} ballast={} out={}",
+        "threads={} rounds={} keys={} gate={} ballast={} out={}{}",
         threads,
         rounds,
         keys,
         kv.str("gate", "none"),
         ballast as u8,
-        kv.str("out", "ok")
+        kv.str("out", "ok"),
+        if hm == 0 { String::new() } else { format!(" hmod={}", hm) }
     );
     let _exclusive = HerdLock::acquire();
     let t0 = real_ns();
@@ -1002,6 +1045,8 @@ fn herd(kv: &Kv) {
         // all threads are back from `call()`, no inner call may have finished: look
         let started: Vec<(u64, u64, usize)> = sh.started.lock().unwrap_or_else(|e| e.into_inner()).clone();
         let flying: BTreeMap<u64, Vec<(u64, usize)>> = sh.fly.lock().unwrap_or_else(|e| e.into_inner()).clone();
+        let orphan = (1..=keys as u64).any(|k| !started.iter().any(|x| x.0 == k));
+        lanes.patience.store(if orphan { HERD_ORPHAN_NS } else { HERD_DEADLINE_NS }, Ordering::SeqCst);
         sh.release.store(r, Ordering::Release);
         spin_until(|| lanes.finished.load(Ordering::Acquire) >= threads, u64::MAX);
         let got: Vec<Option<Got>> = {
@@ -1058,6 +1103,11 @@ fn herd(kv: &Kv) {
                     why.join(" | "),
                     cfg.replace(&format!("rounds={}", rounds), &format!("rounds={}", r))
                 ));
+            }
+            // requests that never resolve cost real time in every round (`Lanes::patience`): a few such rounds are
+            // enough, the run ends here (`performed` says how many rounds were made)
+            if bad_rounds >= 3 && got.iter().any(|g| matches!(g, Some(Got::Stuck) | None)) {
+                break;
             }
         }
     }
